@@ -18,13 +18,21 @@ func init() { checks["C12"] = checkC12 }
 
 // restoredSummary restores an image into a scratch router (the real
 // RestoreLastSavedState) and summarises what it would serve.
-func restoredSummary(w *World, data []byte, exists bool) (string, error) {
+func restoredSummary(w *World, data []byte, exists bool, siblings ...map[string][]byte) (string, error) {
 	p := fmt.Sprintf("%s/image-%d.state", w.Dir, len(w.FileLog)+int(w.Now()))
 	if exists {
 		if err := os.WriteFile(p, data, 0o644); err != nil {
 			return "", err
 		}
 		defer os.Remove(p)
+	}
+	for _, sib := range siblings {
+		for suffix, sd := range sib {
+			if err := os.WriteFile(p+suffix, sd, 0o644); err != nil {
+				return "", err
+			}
+			defer os.Remove(p + suffix)
+		}
 	}
 	r := NewRouter(p)
 	err := r.RestoreLastSavedState()
@@ -135,7 +143,7 @@ func c12Spec(tier string) *HSpec {
 			}
 		}
 		for _, im := range images {
-			sum, err := restoredSummary(h.World, im.Data, im.Exists)
+			sum, err := restoredSummary(h.World, im.Data, im.Exists, im.Siblings)
 			at := im.After
 			if strings.HasPrefix(at, "create:") && len(im.Data) == 0 {
 				at = "after-truncate"
@@ -201,7 +209,7 @@ func c12Scenario(c c12cfg) *Scenario {
 		w.mu.Unlock()
 		_ = candidates
 		for _, im := range imgs {
-			if _, err := restoredSummary(w, im.Data, im.Exists); err != nil {
+			if _, err := restoredSummary(w, im.Data, im.Exists, im.Siblings); err != nil {
 				neither = append(neither, fmt.Sprintf("%s: %v", im.After, err))
 			}
 		}
@@ -224,7 +232,7 @@ func checkC12(t *testing.T, job *Job, res *Result) {
 	if job.Replay != nil {
 		tier = job.Replay.Tier
 	}
-	res.Rule = "engine F: for every history of engine H up to the depth bound (deploy variants, rollout deploy/set/stop, pause, stop, resume, remove, failing commands) and every image of the state file taken after each file operation of the last command (create/truncate, temp file, rename, ...) and at return (thorough: also prefixes of an in-place write): the image is given to the real RestoreLastSavedState in a scratch router and must restore to the configuration before or after the command, the one at return to the one after; engine S: ordered pairs of overlapping commands with file operations as scheduling points, every schedule within the bound: once both returned the file restores to the configuration in force, no intermediate image is unrestorable"
+	res.Rule = "engine F: for every history of engine H up to the depth bound (deploy variants, rollout deploy/set/stop, pause, stop, resume, remove, failing commands) and every image of the state file (together with the temporary files left next to it) taken after each file operation of the last command (create/truncate, temp file, rename, ...) and at return (thorough: also prefixes of an in-place write): the image is given to the real RestoreLastSavedState in a scratch router and must restore to the configuration before or after the command, the one at return to the one after; engine S: ordered pairs of overlapping commands with file operations as scheduling points, every schedule within the bound: once both returned the file restores to the configuration in force, no intermediate image is unrestorable"
 	if job.Replay == nil || job.Replay.Engine == "H" {
 		spec := c12Spec(tier)
 		res.Bounds = fmt.Sprintf("histories<=%d commands; kill between system calls", spec.Depth)
